@@ -168,6 +168,13 @@ var registry = []Harness{
 	{Prop: "C16", Pkg: "proxy", Func: "VerifC16Preserve", Link: []string{"alphabet", "audit", "balance", "container", "neofs", "neofsid", "netmap", "nns", "processing", "proxy", "reputation"},
 		Quick: [][]int{{0}, {1}, {2}, {3}},
 		Bound: "data preservation on the CURRENT storage layout: Balance (two accounts, a lock, supply), Netmap (epoch, maps, candidates, configuration, ticking), Container (blob, owner index, eACL), NNS (name, owner, record) are built through the API, then upgraded from a release reporting a symbolic supported version; the read API must answer as before. Old storage layouts are NOT generated"},
+	{Prop: "C16", Pkg: "balance", Func: "VerifC16MigrateBalance", Link: []string{"netmap", "balance"},
+		Quick:    [][]int{{0, 0}, {0, 1}, {0, 2}, {0, 3}, {0, 4}, {1, 0}},
+		Bound:    "LEGACY Balance storage preset raw: three accounts under their bare 20-byte hash (amounts 1..10^6 symbolic), one of them a lock account of the first (until 2..100 symbolic), the supply entry; era param0 (0: v in [0.15.4,0.17.0) with the notary flag param1 and the two stored contract hashes, 1: [0.17.0,0.20.0)); symbolic version inside the era; then a transfer and two ticks around the lock's epoch"},
+	{Prop: "C16", Pkg: "container", Func: "VerifC16MigrateContainer", Link: []string{"container"},
+		Quick:    [][]int{{0, 0, 0}, {0, 1, 1}, {0, 2, 0}, {0, 3, 1}, {0, 4, 0}, {1, 0, 0}, {1, 0, 1}},
+		Thorough: [][]int{{0, 0, 0}, {0, 1, 0}, {0, 2, 0}, {0, 3, 0}, {0, 4, 0}, {0, 0, 1}, {0, 1, 1}, {0, 2, 1}, {0, 3, 1}, {0, 4, 1}, {1, 0, 0}, {1, 0, 1}},
+		Bound:    "LEGACY Container storage preset raw: two containers under their bare 32-byte id (V2 blobs, every byte but the layout symbolic) with the owner index under the bare 57-byte owner||id (param2: one or two owners), an eACL, the stored contract hashes; era param0 (0: v in [0.15.4,0.17.0) with the notary flag param1, 1: [0.17.0,current)); symbolic version inside the era; then one container is deleted"},
 	{Prop: "C16", Pkg: "netmap", Func: "VerifC16MigrateNetmap", Link: []string{"netmap", "probe1", "probe2"},
 		Quick:    [][]int{{0, 0}, {0, 1}, {0, 2}, {0, 3}, {0, 4}, {1, 0}, {1, 2}, {1, 4}, {2, 0}},
 		Thorough: [][]int{{0, 0}, {0, 1}, {0, 2}, {0, 3}, {0, 4}, {1, 0}, {1, 1}, {1, 2}, {1, 3}, {1, 4}, {2, 0}},
